@@ -354,7 +354,8 @@ def build(o, rec):
         return FILE_CLASSES[(o['close'], o['iter'])](rec, o['id'], o['content'])
     if k == 'iter':
         if o.get('list'):
-            return [build(it['o'], rec) for it in o['items']]
+            items = [build(it['o'], rec) for it in o['items']]
+            return tuple(items) if o['list'] == 'tuple' else items
         if o.get('box'):
             return (RecBoxC if o['close'] else RecBox)(rec, o['id'], o['items'], o['box'])
         return (RecIterC if o['close'] else RecIter)(rec, o['id'], o['items'])
@@ -1995,6 +1996,18 @@ def corpus():
             cs.append(ret(_iter(1, [f], box='gen')))
         cs.append(ret(_resp(418, hello, err=True), eh=[[418, dict(k='raise', cls=name)]]))
         cs.append(ret(hello, routing=prog(f), method='HEAD', cfg=dict(via='ctor', catchall=False, debug=False)))
+    # lists / tuples that start with empty chunks: the first REAL item decides (str is encoded, a response object
+    # takes over, bytes pass), whatever the type of the empty ones before it
+    # (seeded change: a fast path returns a list whose first item is bytes as it is)
+    eb, es = dict(k='bytes', b=[]), _str('')
+    for kind in (True, 'tuple'):
+        for lead in ([eb], [eb, eb], [eb, es], [es, eb], [dict(k='falsy', v='none'), eb]):
+            for nxt in ([_str('hello')], [_str('héllo wörld')], [_str('€'), _str('x')], [_resp(404, _str('nf'), err=True)],
+                        [_resp(201, _str('made'))], [_resp(418, dict(k='bytes', b=[1, 2]), err=True), _str('never')],
+                        [dict(k='bytes', b=[104, 105]), dict(k='bytes', b=[33])], [dict(k='bytes', b=[104]), _str('x')], []):
+                cs.append(ret(_iter(1, lead + nxt, close=False, lst=kind)))
+        cs.append(ret(_iter(1, [eb, _str('héllo')], close=False, lst=kind), method='HEAD'))
+        cs.append(ret(_iter(1, [eb, _resp(404, _str('nf'), err=True)], close=False, lst=kind), json=True))
     # a path with a (valid or invalid) percent escape: routed once, as it is; every hook runs once, 404 or not
     # (seeded change: a 404 for such a path is re-dispatched with the unquoted path from inside _handle's try/finally)
     for pk in sorted(PATH_TAILS):
